@@ -253,8 +253,14 @@ def units(data, tier):
         span, step = 3, 1
     else:
         span, step = 2, max(1, L // 60)
+    seen = set()
     for i in range(0, L, step):
         for j in range(i + 1, min(L, i + span) + 1):
+            seen.add((i, j))
+            yield parts, i, j
+    # the first and the last unit are always included (the last one has no line end: repeated it is one long line)
+    for i, j in ((0, 1), (L - 1, L)):
+        if L and (i, j) not in seen:
             yield parts, i, j
 
 
@@ -552,4 +558,5 @@ def main(run):
         "loads": total + 2 * gpairs,
         "growth_pairs": gpairs,
     }
-    return run.finish(cov, assumptions=["time bound: CPU <= max(2 s, 2 ms per input byte), soft limit 4 s, hard limit 20 s wall", "memory: peak RSS growth <= 256 MiB under a 2 GiB address-space cap", "a file object passed in by the caller is not required to be closed"], confirm_limit=6)
+    return run.finish(cov, assumptions=["time bound: CPU <= max(2 s, 2 ms per input byte), soft limit 4 s, hard limit 20 s wall", "memory: peak RSS growth <= 256 MiB under a 2 GiB address-space cap", "a file object passed in by the caller is not required to be closed"], confirm_limit=6,
+                      measured_prefixes=("loading time grows faster than the input", "loading takes CPU time out of proportion", "loading does not finish within the time bound"))
